@@ -9,7 +9,10 @@
 //	C. once in each of 8 FRESH PROCESSES (the harness re-executes itself with --child; different map seeds);
 //	D. (interleave.go) probe requests through shared plan caches (Normalize off/on, capacity 2/default) after random
 //	   prefixes of near misses (one default value / literal / directive / alias / argument order / operation name /
-//	   fragment body changed): every answer must equal the one graphql.Do gives from scratch.
+//	   fragment body changed): every answer must equal the one graphql.Do gives from scratch;
+//	E. (stateful.go) introspection is read-only (schema dump before/after everything; data → introspection → data on a
+//	   schema with overlapping IsTypeOf and no ResolveType), and a request whose resolver issues another request on the
+//	   same plan / cache / schema with other variables answers as it does alone.
 //
 // Observables: json.Marshal of the *graphql.Result (bytes), json.Marshal of ValidateDocument(...).Errors (bytes), the
 // first result of a subscription. All must be byte-identical across A, B and C. There is no Lean driver: the
@@ -128,6 +131,10 @@ var wideRequests = []struct{ kind, q string }{
 	{"hand:mutatingResolver", `query ($o: In, $tags: [String], $t: String) { echo(opts: $o, tags: $tags, ins: [$o, {a: 4}]) e2: echo(term: $t, ins: [{a: 1, e: {a: 2}}]) }`},
 	{"hand:mutatingResolver", `mutation ($t: String) { echoM(term: $t) again: echoM(term: $t, tags: ["k"]) }`},
 	{"hand:aliasEnum", `{ alias aliases a2: alias(x: CRIMSON) a3: alias(x: AZURE) node { ... on T1 { al als } ... on T2 { al als } ... on T3 { al } ... on T4 { als } } nodes { ... on Typed { w } } }`},
+	// abstract types without ResolveType over objects with overlapping IsTypeOf: the answer depends on the order of the
+	// possible types, which nothing (an introspection request, say) may change
+	{"hand:overlappingIsTypeOf", `{ staff { __typename ... on Zeta { name reports } ... on AnyStaff { name desk } } staffs { __typename ... on Zeta { reports } ... on AnyStaff { desk } } role { __typename name } zetaStaff { __typename ... on Zeta { reports } ... on AnyStaff { desk } } zetaStaffs { __typename } zetaRole { __typename name } }`},
+	{"hand:introspectionOrder", `{ __type(name: "Staff") { possibleTypes { name } } r: __type(name: "Role") { possibleTypes { name } } }`},
 	{"hand:abstract", `{ u { __typename ... on T1 { me u { __typename ... on Node { w } } } ... on Node { x z { __typename w } } } us { ... on T2 { kids { w } } ... on T4 { me } } }`},
 }
 
@@ -161,7 +168,7 @@ func buildCases(seed uint64, thorough bool) ([]schemaSpec, []caseT) {
 		switch wr.kind {
 		case "hand:dethunkOrder", "hand:nonNull", "hand:abstract":
 			ms = modes
-		case "hand:implementationsOrder":
+		case "hand:implementationsOrder", "hand:overlappingIsTypeOf":
 			ms = []modeT{{}, {Errors: true, Thunks: true}}
 		case "hand:mutatingResolver":
 			ms = []modeT{{Mut: true}, {Mut: true, AllThunks: true}, {}}
@@ -262,14 +269,16 @@ type builtKey struct {
 }
 
 type env struct {
-	specs  []schemaSpec
-	built  map[builtKey]*graphql.Schema
-	caches map[builtKey]*graphql.PlanCache
-	plans  map[string]*graphql.Plan // case id → plan prepared once with PlanQuery and executed again and again (nil: none)
+	specs     []schemaSpec
+	built     map[builtKey]*graphql.Schema
+	caches    map[builtKey]*graphql.PlanCache
+	plans     map[string]*graphql.Plan // case id → plan prepared once with PlanQuery and executed again and again (nil: none)
+	dumps     map[builtKey]string      // structural dump of each schema right after it was built (phase E1)
+	keepDumps bool
 }
 
 func newEnv(specs []schemaSpec) *env {
-	return &env{specs: specs, built: map[builtKey]*graphql.Schema{}, caches: map[builtKey]*graphql.PlanCache{}, plans: map[string]*graphql.Plan{}}
+	return &env{specs: specs, built: map[builtKey]*graphql.Schema{}, caches: map[builtKey]*graphql.PlanCache{}, plans: map[string]*graphql.Plan{}, dumps: map[builtKey]string{}}
 }
 
 func (e *env) schema(c *caseT) (*graphql.Schema, *graphql.PlanCache, error) {
@@ -293,6 +302,9 @@ func (e *env) schema(c *caseT) (*graphql.Schema, *graphql.PlanCache, error) {
 		s.AddExtensions(&ext{"e1", true}, &ext{"e2", false}, &ext{"e3", true}, &ext{"e4", true}, &ext{"e5", false})
 	}
 	e.built[k] = &s
+	if e.keepDumps {
+		e.dumps[k] = dumpSchema(&s)
+	}
 	e.caches[k] = graphql.NewPlanCache(graphql.PlanCacheOptions{MaxEntries: 64})
 	return &s, e.caches[k], nil
 }
@@ -509,11 +521,22 @@ func main() {
 	specs, cases := buildCases(run.Seed, run.Thorough())
 	if run.ReplayIn != "" {
 		var rp struct {
-			Case       caseT `json:"case"`
-			Interleave *iseq `json:"interleave"`
+			Case                 caseT  `json:"case"`
+			Interleave           *iseq  `json:"interleave"`
+			IntrospectionRequest string `json:"introspection_request"`
+			OuterEntry           string `json:"outer_entry_point"`
+			DumpBefore           string `json:"dump_before"`
 		}
 		if err := hx.LoadReplay(run.ReplayIn, &rp); err != nil {
 			run.CheckError("cannot load replay: " + err.Error())
+			run.Finish()
+			return
+		}
+		if rp.IntrospectionRequest != "" || rp.OuterEntry != "" || rp.DumpBefore != "" {
+			// replay of a phase-E finding: the targeted sequences are cheap and deterministic, run them all again
+			n := phaseReadOnly(run, specs, newEnv(specs), map[builtKey]string{})
+			n += phaseNested(run)
+			run.Res.Evaluations = n
 			run.Finish()
 			return
 		}
@@ -630,6 +653,7 @@ func main() {
 
 	// ---- A. shared schema, interleaved; Do / cached plan / one prepared plan re-executed, in turn
 	shared := newEnv(specs)
+	shared.keepDumps = true
 	for rep := 0; rep < reps; rep++ {
 		order := hx.Fork(run.Seed, 5000+rep)
 		idx := make([]int, len(cases))
@@ -683,6 +707,13 @@ func main() {
 		}
 	}
 
+	// ---- E. requests do not change what later or enclosing requests see (stateful.go)
+	eExec := 0
+	if *only == "" {
+		eExec += phaseReadOnly(run, specs, shared, shared.dumps)
+		eExec += phaseNested(run)
+	}
+
 	// ---- C. compare what the fresh processes (started before phase A) observed
 	wg.Wait()
 	for p, co := range childOuts {
@@ -725,8 +756,8 @@ func main() {
 		key := fmt.Sprintf("%s|%s|%x|%s", specs[c.Schema].Name, c.Mode, h[:8], c.Op)
 		run.Case(key, len(o.Do) > 2 && class != "fault", map[string]interface{}{"id": c.ID, "query": c.Query[:min(len(c.Query), 300)], "result_class": class, "do": o.Do[:min(len(o.Do), 300)]})
 	}
-	run.Res.Rule = fmt.Sprintf("a case is one (schema, resolver-world mode, request); it counts as non-trivial when the request completed with data or errors; every case was executed %d× on one shared schema value interleaved with all others (in turn graphql.Do, PlanCache.Get+ExecutePlan, and re-execution of one prepared plan), %d× on freshly built schemas in the same process and once in each of %d fresh processes; both json.Marshal(result) and json.Marshal(ValidateDocument(...).Errors) must be byte-identical throughout; distinctness by (schema, mode, query, operation); phase D: a sequence = a probe request answered through one shared PlanCache after 1-6 near-miss requests (exactly one default value / literal / directive / alias / argument order / operation name / fragment body changed), every probe answer byte-identical to graphql.Do's", reps, freshReps, procs)
-	run.Res.Evaluations = len(cases)*(reps+freshReps+procs) + ist.executions // every execution of the real code is compared
+	run.Res.Rule = fmt.Sprintf("a case is one (schema, resolver-world mode, request); it counts as non-trivial when the request completed with data or errors; every case was executed %d× on one shared schema value interleaved with all others (in turn graphql.Do, PlanCache.Get+ExecutePlan, and re-execution of one prepared plan), %d× on freshly built schemas in the same process and once in each of %d fresh processes; both json.Marshal(result) and json.Marshal(ValidateDocument(...).Errors) must be byte-identical throughout; distinctness by (schema, mode, query, operation); phase D: a sequence = a probe request answered through one shared PlanCache after 1-6 near-miss requests (exactly one default value / literal / directive / alias / argument order / operation name / fragment body changed), every probe answer byte-identical to graphql.Do's; phase E: schema dump unchanged by all requests, data request unchanged by an interposed introspection request, outer request unchanged by a nested request issued from its own resolver", reps, freshReps, procs)
+	run.Res.Evaluations = len(cases)*(reps+freshReps+procs) + ist.executions + eExec // every execution of the real code is compared
 	run.Res.Extra["interleave_sequences"] = ist.probes
 	run.Res.Extra["interleave_executions"] = ist.executions
 	run.Res.Extra["cases"] = len(cases)
